@@ -207,6 +207,8 @@ class BufScript:
         for _ in range(nact):
             if self.rng.random() < 0.3:
                 ops.append((self.rng.choice("BPOQ"), self.rng.randrange(self.nsc)))
+            if self.rng.random() < 0.25:
+                ops += [("I", 0)] * self.rng.randint(1, 4)      # yyinput(): may run into the end of the current buffer
             if self.rng.random() < p:
                 ops += self.bufops(self.rng.randint(1, 2))
             ops.append(("T", 0) if self.rng.random() < 0.25 else ("-", 0))
